@@ -1,37 +1,69 @@
 --------------------------- MODULE Trace_UdpShell ---------------------------
 (***************************************************************************)
 (* Shell leg of C19: what mock UDP clients and backends observed around a  *)
-(* REAL sozu worker (harness/shell_udp, lock step), validated against the  *)
-(* same handlers as the pure core (UdpFlows.tla), composed the way         *)
+(* REAL sozu worker (harness/shell_udp), validated against the same        *)
+(* handlers as the pure core (UdpFlows.tla), composed the way              *)
 (* lib/src/udp.rs composes them: a SelectBackend is answered at once by    *)
 (* BackendResolved with a backend of the load balancer's choice (the one   *)
 (* that was observed to receive the datagram).                             *)
 (*                                                                         *)
-(*   {"ev":"reset","cluster":CfgT,"maxFlows":k,"maxRx":k,"clients":[ports]}*)
-(*   {"ev":"c2b","client":i,"port":p,"pl":{id,len},                        *)
+(*   {"ev":"reset","cluster":CfgT,"maxFlows":k,"maxRx":k,                  *)
+(*        "clients":[{"ip":a,"port":p}…]}                                  *)
+(*   lock step (one datagram, then the observation):                       *)
+(*   {"ev":"c2b","client":i,"ip":a,"port":p,"pl":{id,len},                 *)
 (*        "obs":{"got":0} | {"got":1,"backend":b,"up":u,"id":x,"intact":t}, *)
 (*        "dup":0|1}      a client datagram and what the backends received *)
 (*   {"ev":"b2c","backend":b,"up":u,"foreign":t,"pl":{id,len},             *)
 (*        "obs":{"got":0} | {"got":1,"client":i,"id":x,"intact":t},"dup":…}*)
 (*                        a datagram sent by backend b to upstream port u  *)
 (*   {"ev":"cfg","what":"SetCluster","cfg":CfgT} | {…"SetMaxFlows","v":k}  *)
+(*   batched (k datagrams queued on the worker's sockets BEFORE it wakes:  *)
+(*   one drain pass of the listener socket holds several datagrams of      *)
+(*   several flows, backend replies of several flows wait at once, both    *)
+(*   directions share a poll turn):                                        *)
+(*   {"ev":"batch","paused":0|1,                                           *)
+(*        "sends":[{"k":"c"|"b","client":i,"ip":a,"port":p,"backend":b,    *)
+(*                  "up":u,"foreign":t,"pl":{id,len}}…]  in sending order, *)
+(*        "at":[[{"up":u,"id":x,"intact":t}…] per backend, arrival order], *)
+(*        "cl":[[{"id":x,"intact":t}…] per client, arrival order]}         *)
+(*                                                                         *)
+(* A batch is explained datagram by datagram with the per-datagram         *)
+(* semantics of the core: every socket of the worker is a FIFO (the        *)
+(* listener socket: the client datagrams in sending order; each upstream    *)
+(* socket: the replies sent to its port), the worker may serve the sockets *)
+(* in any interleaving (epoll order is free), every receiver is a FIFO too *)
+(* (loopback, one sending thread).  Each micro step is the core's Step for *)
+(* the head of one socket queue and must consume the head of the           *)
+(* observation queue of the receiver the core names: the flow's backend    *)
+(* THROUGH THE FLOW'S OWN upstream port, or the flow's client.  At the end *)
+(* every observation must have been consumed (nothing duplicated, nothing  *)
+(* delivered that the core does not send).                                 *)
 (*                                                                         *)
 (* The flow id is not visible on the wire; the proxy's upstream source     *)
 (* port stands for the flow incarnation (umap: live flow -> port).         *)
 (* No idle timeout fires during a run (timeouts are 120 s): time stays 0.  *)
+(*                                                                         *)
+(* Self-test switch (never an open finding): "StaleInFlightUpstream" in    *)
+(* Deviations models the defect class "the shell resolves the upstream     *)
+(* socket of a datagram from per-PASS instead of per-DATAGRAM state": once *)
+(* a datagram of the pass opened a flow, later datagrams of the pass leave *)
+(* on that flow's socket.  A recorded run of a correct shell must be       *)
+(* REJECTED under it (checked by c19.py on every run: vacuity guard).      *)
 (***************************************************************************)
 EXTENDS UdpFlows, IOUtils
 
 ASSUME TLCSet(1, 0)
+ASSUME TLCSet(2, 0)
 
 Rec == ndJsonDeserialize(IOEnv.TRACE)
 
 VARIABLES idx,      \* next event to explain
           umap,     \* live flow id -> upstream port observed at the backends
-          ports,    \* client index -> its source port
-          sel       \* flow whose SelectBackend waits for the shell's answer (NoFlow if none)
+          clis,     \* client index -> its source [ip, port]
+          sel,      \* flow whose SelectBackend waits for the shell's answer (NoFlow if none)
+          bq        \* progress inside a batch event (NoB outside)
 
-tvars == <<vars, idx, umap, ports, sel>>
+tvars == <<vars, idx, umap, clis, sel, bq>>
 
 CfgOf(a) == Cfg(a[1], a[2] = 1, a[3], a[4], a[5], a[6], a[7] = 1, a[8] = 1)
 
@@ -45,26 +77,40 @@ Sends(o) == {j \in 1..Len(o) : o[j].k = "SendToBackend"}
 Selects(o) == {j \in 1..Len(o) : o[j].k = "SelectBackend"}
 ToClient(o) == {j \in 1..Len(o) : o[j].k = "SendToClient"}
 
+\* done: indices of e.sends already explained; ob / oc: observations consumed per backend / client;
+\* dead: flow ids closed during this batch (their upstream sockets went with whatever was queued on them);
+\* opened: the flow most recently opened by this batch (only read by the self-test switch)
+NoB == [on |-> FALSE, done |-> {}, ob |-> <<>>, oc |-> <<>>, dead |-> {}, opened |-> NoFlow]
+Fresh(e) == [on |-> TRUE,
+             \* a datagram from a backend that is not the socket's peer never reaches the worker
+             done |-> {j \in 1..Len(e.sends) : e.sends[j].k = "b" /\ e.sends[j].foreign},
+             ob |-> [b \in 1..Len(e.at) |-> 0], oc |-> [c \in 1..Len(e.cl) |-> 0], dead |-> {}, opened |-> NoFlow]
+BQ(e) == IF bq.on THEN bq ELSE Fresh(e)
+
 TInit ==
   /\ table = <<>> /\ flows = <<>> /\ free = <<>> /\ slabLen = 0
   /\ maxFlows = 1 /\ maxRx = 1 /\ draining = FALSE /\ cluster = Base(TRUE)
   /\ armed = NoTimer /\ now = 0 /\ n = 0 /\ inp = [op |-> "Init"] /\ out = <<>> /\ hist = <<>>
-  /\ idx = 1 /\ umap = <<>> /\ ports = <<>> /\ sel = NoFlow
+  /\ idx = 1 /\ umap = <<>> /\ clis = <<>> /\ sel = NoFlow /\ bq = NoB
 
 TReset(e) ==
   /\ SetCore([table |-> <<>>, flows |-> <<>>, free |-> <<>>, slabLen |-> 0, maxFlows |-> e.maxFlows, maxRx |-> e.maxRx,
               draining |-> FALSE, cluster |-> CfgOf(e.cluster), armed |-> NoTimer, now |-> 0])
   /\ n' = 0 /\ inp' = [op |-> "Init"] /\ out' = <<>> /\ hist' = hist
-  /\ umap' = <<>> /\ ports' = e.clients /\ sel' = NoFlow /\ idx' = idx + 1
+  /\ umap' = <<>> /\ clis' = [c \in 1..Len(e.clients) |-> [ip |-> e.clients[c].ip, port |-> e.clients[c].port]]
+  /\ sel' = NoFlow /\ idx' = idx + 1 /\ bq' = NoB
 
 Fail(what, e) == PrintT(<<"MISMATCH at event", idx, what, e>>) /\ FALSE
 \* (IF, not a disjunction: TLC evaluates every disjunct of an action)
 Check(cond, what, e) == IF cond THEN TRUE ELSE Fail(what, e)
 
+---------------------------------------------------------------------------
+(* lock step *)
+
 \* first half of a client datagram: the manager's ClientDatagram step
 TClient(e) ==
   /\ sel = NoFlow
-  /\ LET i == [op |-> "ClientDatagram", src |-> [ip |-> 1, port |-> e.port], pl |-> e.pl]
+  /\ LET i == [op |-> "ClientDatagram", src |-> [ip |-> e.ip, port |-> e.port], pl |-> e.pl]
          r == Step(St, i)
          f == Lookup(St, i.src)
      IN /\ Check(e.dup = 0, "a datagram was delivered twice", e)
@@ -81,7 +127,7 @@ TClient(e) ==
                               /\ f \in DOMAIN umap /\ e.obs.up = umap[f],     \* on the flow's own upstream socket
                               <<"expected delivery to backend", x.dst, "via", umap>>, e)
                    ELSE Check(e.obs.got = 0, <<"expected no delivery, manager output", r.out>>, e)
-        /\ SetCore(r.s) /\ n' = n + 1 /\ inp' = i /\ out' = r.out /\ hist' = hist /\ ports' = ports
+        /\ SetCore(r.s) /\ n' = n + 1 /\ inp' = i /\ out' = r.out /\ hist' = hist /\ clis' = clis /\ bq' = bq
 
 \* second half: the shell's immediate BackendResolved for the flow just admitted
 TResolve(e) ==
@@ -96,7 +142,7 @@ TResolve(e) ==
                  /\ \A g \in DOMAIN umap \cap Live(St) : umap[g] # e.obs.up,
                  <<"first datagram of a new flow", r.out, umap>>, e)
         /\ umap' = RestrictTo((sel :> e.obs.up) @@ umap, Live(r.s))
-        /\ SetCore(r.s) /\ n' = n + 1 /\ inp' = i /\ out' = r.out /\ hist' = hist /\ ports' = ports
+        /\ SetCore(r.s) /\ n' = n + 1 /\ inp' = i /\ out' = r.out /\ hist' = hist /\ clis' = clis /\ bq' = bq
         /\ sel' = NoFlow /\ idx' = idx + 1
 
 \* a datagram from a backend towards an upstream port of the proxy
@@ -107,18 +153,18 @@ TBackend(e) ==
      IF e.foreign \/ fs = {}
      THEN \* not the flow's backend (connected socket: the kernel filters it) or the flow is gone
           /\ Check(e.obs.got = 0, "a datagram from a foreign backend / for a closed flow reached a client", e)
-          /\ UNCHANGED <<vars, umap, ports, sel>> /\ idx' = idx + 1
+          /\ UNCHANGED <<vars, umap, clis, sel, bq>> /\ idx' = idx + 1
      ELSE LET f == CHOOSE x \in fs : TRUE
               i == [op |-> "BackendDatagram", flow |-> f, pl |-> e.pl]
               r == Step(St, i)
           IN /\ IF ToClient(r.out) # {}
                 THEN LET x == r.out[CHOOSE j \in ToClient(r.out) : TRUE] IN
                      Check(/\ e.obs.got = 1 /\ e.obs.intact /\ e.obs.id = x.p
-                           /\ ports[e.obs.client] = x.client.port,            \* isolation: the flow's client only
-                           <<"expected reply at client port", x.client.port>>, e)
+                           /\ clis[e.obs.client] = x.client,                  \* isolation: the flow's client only
+                           <<"expected reply at client", x.client>>, e)
                 ELSE Check(e.obs.got = 0, <<"expected no reply, manager output", r.out>>, e)
              /\ umap' = RestrictTo(umap, Live(r.s))
-             /\ SetCore(r.s) /\ n' = n + 1 /\ inp' = i /\ out' = r.out /\ hist' = hist /\ ports' = ports
+             /\ SetCore(r.s) /\ n' = n + 1 /\ inp' = i /\ out' = r.out /\ hist' = hist /\ clis' = clis /\ bq' = bq
              /\ sel' = NoFlow /\ idx' = idx + 1
 
 TConfig(e) ==
@@ -128,7 +174,110 @@ TConfig(e) ==
               ELSE [op |-> "Config", ev |-> [what |-> e.what, v |-> e.v]]
          r == Step(St, i)
      IN /\ SetCore(r.s) /\ n' = n + 1 /\ inp' = i /\ out' = r.out /\ hist' = hist
-        /\ UNCHANGED <<umap, ports, sel>> /\ idx' = idx + 1
+        /\ UNCHANGED <<umap, clis, sel, bq>> /\ idx' = idx + 1
+
+---------------------------------------------------------------------------
+(* batches: one micro step per datagram (plus the resolution of a new flow) *)
+
+Stale == "StaleInFlightUpstream" \in Deviations
+
+\* the listener socket is one FIFO: the next client datagram is the earliest one not yet explained
+NextC(e, b) == {j \in 1..Len(e.sends) \ b.done : e.sends[j].k = "c"}
+\* each upstream socket (port) is a FIFO of its own
+NextB(e, b) == {j \in 1..Len(e.sends) \ b.done :
+                  /\ e.sends[j].k = "b"
+                  /\ \A j2 \in 1..(j - 1) : (e.sends[j2].k = "b" /\ e.sends[j2].up = e.sends[j].up) => j2 \in b.done}
+
+Closed(s, t) == Live(s) \ Live(t)
+
+\* the head of backend b's observation queue is datagram p, intact, arrived through upstream port u
+HeadAt(e, b0, b, p, u) ==
+  /\ b \in 1..Len(e.at) /\ b0.ob[b] < Len(e.at[b])
+  /\ LET h == e.at[b][b0.ob[b] + 1] IN h.id = p /\ h.intact /\ h.up = u
+
+TBClient(e) ==
+  /\ sel = NoFlow
+  /\ LET b0 == BQ(e) IN
+     /\ NextC(e, b0) # {}
+     /\ LET j  == Min(NextC(e, b0))
+            it == e.sends[j]
+            i  == [op |-> "ClientDatagram", src |-> [ip |-> it.ip, port |-> it.port], pl |-> it.pl]
+            r  == Step(St, i)
+            f  == Lookup(St, i.src)
+            b1 == [b0 EXCEPT !.done = @ \cup {j}, !.dead = @ \cup Closed(St, r.s)]
+        IN /\ IF Selects(r.out) # {}
+              THEN \* new flow: explained by the resolution that follows (j stays pending)
+                   /\ sel' = r.out[CHOOSE k \in Selects(r.out) : TRUE].flow
+                   /\ bq' = b0 /\ umap' = umap
+              ELSE /\ sel' = NoFlow
+                   /\ umap' = RestrictTo(umap, Live(r.s))
+                   /\ IF Sends(r.out) # {}
+                      THEN LET x == r.out[CHOOSE k \in Sends(r.out) : TRUE] IN
+                           IF Stale /\ b0.opened # NoFlow
+                           THEN \* self-test: the datagram leaves on the socket of the flow opened earlier in the pass
+                                IF b0.opened \in DOMAIN umap \cap Live(St)
+                                THEN /\ HeadAt(e, b0, St.flows[b0.opened].backend, x.p, umap[b0.opened])
+                                     /\ bq' = [b1 EXCEPT !.ob[St.flows[b0.opened].backend] = @ + 1]
+                                ELSE bq' = b1
+                           ELSE \* sticky: the flow's backend, on the flow's own upstream socket
+                                /\ f \in DOMAIN umap
+                                /\ HeadAt(e, b0, x.dst, x.p, umap[f])
+                                /\ bq' = [b1 EXCEPT !.ob[x.dst] = @ + 1]
+                      ELSE bq' = b1
+           /\ SetCore(r.s) /\ n' = n + 1 /\ inp' = i /\ out' = r.out /\ hist' = hist
+           /\ UNCHANGED <<idx, clis>>
+
+TBResolve(e) ==
+  /\ sel # NoFlow /\ bq.on /\ NextC(e, bq) # {}
+  /\ \E b \in 1..Len(e.at) :
+       /\ bq.ob[b] < Len(e.at[b])
+       /\ LET j == Min(NextC(e, bq))
+              h == e.at[b][bq.ob[b] + 1]
+              i == [op |-> "BackendResolved", flow |-> sel, backend |-> b]
+              r == Step(St, i)
+          IN /\ h.id = e.sends[j].pl.id           \* the backend that received this very datagram was the choice
+             /\ Sends(r.out) # {}
+             /\ LET x == r.out[CHOOSE k \in Sends(r.out) : TRUE] IN h.intact /\ h.id = x.p /\ x.dst = b
+             \* a fresh upstream socket: no other live flow uses that source port
+             /\ \A g \in DOMAIN umap \cap Live(St) : umap[g] # h.up
+             /\ umap' = RestrictTo((sel :> h.up) @@ umap, Live(r.s))
+             /\ bq' = [bq EXCEPT !.done = @ \cup {j}, !.ob[b] = @ + 1, !.dead = @ \cup Closed(St, r.s), !.opened = sel]
+             /\ SetCore(r.s) /\ n' = n + 1 /\ inp' = i /\ out' = r.out /\ hist' = hist
+  /\ sel' = NoFlow /\ UNCHANGED <<idx, clis>>
+
+TBBackend(e) ==
+  /\ sel = NoFlow
+  /\ LET b0 == BQ(e) IN
+     \E j \in NextB(e, b0) :
+       LET it == e.sends[j]
+           fs == {f \in (DOMAIN umap \cap Live(St)) \ b0.dead : umap[f] = it.up}
+           b1 == [b0 EXCEPT !.done = @ \cup {j}]
+       IN IF fs = {}
+          THEN \* the flow is gone (and whatever waited on its socket with it)
+               /\ bq' = b1 /\ UNCHANGED <<vars, umap>>
+          ELSE LET f == CHOOSE x \in fs : TRUE
+                   i == [op |-> "BackendDatagram", flow |-> f, pl |-> it.pl]
+                   r == Step(St, i)
+                   b2 == [b1 EXCEPT !.dead = @ \cup Closed(St, r.s)]
+               IN /\ IF ToClient(r.out) # {}
+                     THEN LET x == r.out[CHOOSE k \in ToClient(r.out) : TRUE] IN
+                          \E c \in 1..Len(clis) :
+                            /\ clis[c] = x.client                              \* isolation: the flow's client only
+                            /\ b0.oc[c] < Len(e.cl[c])
+                            /\ LET h == e.cl[c][b0.oc[c] + 1] IN h.id = x.p /\ h.intact
+                            /\ bq' = [b2 EXCEPT !.oc[c] = @ + 1]
+                     ELSE bq' = b2
+                  /\ umap' = RestrictTo(umap, Live(r.s))
+                  /\ SetCore(r.s) /\ n' = n + 1 /\ inp' = i /\ out' = r.out /\ hist' = hist
+  /\ UNCHANGED <<idx, clis, sel>>
+
+\* everything sent was explained and everything observed was predicted
+TBEnd(e) ==
+  /\ sel = NoFlow /\ bq.on
+  /\ bq.done = 1..Len(e.sends)
+  /\ \A b \in 1..Len(e.at) : bq.ob[b] = Len(e.at[b])
+  /\ \A c \in 1..Len(e.cl) : bq.oc[c] = Len(e.cl[c])
+  /\ idx' = idx + 1 /\ bq' = NoB /\ UNCHANGED <<vars, umap, clis, sel>>
 
 TNext ==
   /\ idx <= Len(Rec)
@@ -137,16 +286,23 @@ TNext ==
        [] e.ev = "c2b"   -> TClient(e) \/ TResolve(e)
        [] e.ev = "b2c"   -> TBackend(e)
        [] e.ev = "cfg"   -> TConfig(e)
+       [] e.ev = "batch" -> TBClient(e) \/ TBResolve(e) \/ TBBackend(e) \/ TBEnd(e)
 
 TraceSpec == TInit /\ [][TNext]_tvars
 
-Track == (idx - 1 > TLCGet(1) => TLCSet(1, idx - 1)) /\ TRUE
+\* register 1: events explained; register 2: datagrams explained inside the first unexplained batch
+Track ==
+  /\ (idx - 1 > TLCGet(1) => TLCSet(1, idx - 1) /\ TLCSet(2, 0))
+  /\ ((idx - 1 = TLCGet(1) /\ bq.on /\ Cardinality(bq.done) > TLCGet(2)) => TLCSet(2, Cardinality(bq.done)))
+  /\ TRUE
 
 TraceAccepted ==
   /\ IF TLCGet(1) = Len(Rec)
      THEN PrintT(<<"TRACE-ACCEPTED", TLCGet(1)>>)
      ELSE /\ PrintT(<<"TRACE-REJECTED", TLCGet(1), Len(Rec)>>)
           /\ PrintT(<<"FIRST-UNEXPLAINED", Rec[TLCGet(1) + 1]>>)
+          /\ (Rec[TLCGet(1) + 1].ev = "batch" =>
+                PrintT(<<"MISMATCH inside the batch: at most", TLCGet(2), "of its datagrams have an explanation in which every datagram reaches the flow's backend through the flow's own upstream socket / the flow's client, in order, exactly once">>))
   /\ TRUE
 
 \* distinct live flows never share an upstream socket
